@@ -4,7 +4,14 @@ from io import BytesIO
 from typing import Dict, List, Mapping, Optional, Sequence, Tuple, Union, cast
 
 from pdfminer import settings
-from pdfminer.casting import safe_cmyk, safe_float, safe_int, safe_matrix, safe_rgb
+from pdfminer.casting import (
+    safe_cmyk,
+    safe_float,
+    safe_int,
+    safe_matrix,
+    safe_rect_list,
+    safe_rgb,
+)
 from pdfminer.cmapdb import CMap, CMapBase, CMapDB
 from pdfminer.pdfcolor import PREDEFINED_COLORSPACE, PDFColorSpace
 from pdfminer.pdfdevice import PDFDevice, PDFTextSeq
@@ -1187,8 +1194,19 @@ class PDFPageInterpreter:
                 return
             interpreter = self.dup()
             interpreter.active_forms = self.active_forms + (form_key,)
-            bbox = cast(Rect, list_value(xobj["BBox"]))
-            matrix = cast(Matrix, list_value(xobj.get("Matrix", MATRIX_IDENTITY)))
+            bbox_value = safe_rect_list([resolve1(v) for v in list_value(xobj["BBox"])])
+            matrix_value = [
+                resolve1(v) for v in list_value(xobj.get("Matrix", MATRIX_IDENTITY))
+            ]
+            matrix_safe = (
+                safe_matrix(*matrix_value) if len(matrix_value) == 6 else None
+            )
+            if bbox_value is None or matrix_safe is None:
+                # without a usable /BBox and /Matrix the form cannot be placed
+                log.warning("Ignoring form XObject with invalid BBox or Matrix: %r", xobjid)
+                return
+            bbox = cast(Rect, list(bbox_value))
+            matrix = matrix_safe
             # According to PDF reference 1.7 section 4.9.1, XObjects in
             # earlier PDFs (prior to v1.2) use the page's Resources entry
             # instead of having their own Resources entry.
